@@ -199,6 +199,10 @@ let build (desc : string) : hstate =
 let check_init st =
   String.concat "" (List.map (fun (l, nx, root) -> if tree_inv_b l nx root then "1" else "0") st.tables)
 
+(* the hypothesis of C15 printable_reachable: the lexical invariant of every stored string, one bit per document *)
+let check_printable st =
+  String.concat "" (List.map (fun (l, _, _) -> if printable_b l then "1" else "0") st.tables)
+
 let exc_name = function
   | IndexSizeErr -> "err:IndexSizeErr" | HierarchyRequestErr -> "err:HierarchyRequestErr"
   | WrongDocumentErr -> "err:WrongDocumentErr" | InvalidCharacterErr -> "err:InvalidCharacterErr"
@@ -217,7 +221,7 @@ let () = register "dom" (fun words ->
       | [k; d] -> Hashtbl.replace digests (int_of_string (String.sub k 1 (String.length k - 1))) (Array.of_list (split '+' d))
       | _ -> ()) (split ';' desc);
     let out = Buffer.create 65536 in
-    Buffer.add_string out ("init ti=" ^ check_init st ^ " # " ^ (if from = 0 then dump st else "-"));
+    Buffer.add_string out ("init ti=" ^ check_init st ^ " pr=" ^ check_printable st ^ " # " ^ (if from = 0 then dump st else "-"));
     List.iteri (fun i opw ->
       let f = Array.of_list (split ':' opw) in
       let h k = if k < Array.length f then (match int_of_string_opt f.(k) with
